@@ -615,7 +615,8 @@ def judge_subprocess(s, argv, paths, flavour, inc, ns, cwd):
     s.hist['cli:subprocess'] += 1
     wit = {'type': 'cli', 'judge': 'subprocess', 'argv': argv,
            'params': {'flavour': flavour, 'inc': inc, 'non_strict': ns},
-           'files': [(q, 'merge', open(q, 'rb').read().decode('latin-1') if os.path.isfile(q) else None) for q in paths]}
+           'files': [(q, 'dir' if os.path.isdir(q) else 'merge', open(q, 'rb').read().decode('latin-1') if os.path.isfile(q) else None)
+                     for q in paths]}
     det = {'flavour': flavour, 'library': type(want_err).__name__ if want_err else 'ok', 'rc': p.returncode,
            'stderr': p.stderr[-200:]}
     if want_err is None:
